@@ -4,7 +4,8 @@
    is aimed at the other effect or is satisfied/unknown; unmet ob ctx eff ch = aimed at eff and
    not satisfied, with the documented challenge ch. *)
 From Coq Require Import ZArith List Bool String.
-From Rbacx Require Import Value Policy Oblig Engine ObligProofs.
+From Rbacx Require Import Value Cond Policy Compiler Oblig Engine PolicyProofs ObligProofs
+     Cache CacheKey CacheGuard CacheGuardProofs CacheExplain CacheExplain2.
 Import ListNotations.
 Local Open Scope string_scope.
 
@@ -149,3 +150,121 @@ Example c07_examples :
   (* unknown type and an obligation aimed at deny are ignored on a permit *)
   check "permit" [ob "require_geo" []; VObj [("type", VStr "require_mfa"); ("on", VStr "deny")]] (VObj []) = Ok (true, None).
 Proof. vm_compute. repeat split. Qed.
+
+(* ------------------------------------------------------------------ *)
+(* the gate through the decision cache ("with and without decision cache"): C08 composed with the
+   engine-level statements above *)
+(* ------------------------------------------------------------------ *)
+Local Open Scope list_scope.   (* ++ is list append below *)
+(* Histories h of HEval w req | HSetPolicy w p | HClear w | HTick dt on one or two guards g1, g2
+   sharing ONE cache M, as in props/C08.v and props/C01.v; a SITE of h is a decomposition
+   h = pre ++ HEval w req :: post, its answer is answer number [evals_in pre] of run_cached (hit flag,
+   Decision | Raise | Ood); [policy_at w pre g1 g2] = the policy guard w holds at that point.
+   Hypotheses = those of c08_transparent_key_safe.  On a hit the raw decision r comes from the cache,
+   but it IS guard_decide of the policy held at that point on this request's environment, and the
+   verdict is the built-in checker's on the context k of THIS request. *)
+
+(* the answer, verdict by verdict *)
+Theorem c07_gate_verdict_cached :
+  forall (rel : rel_query -> bool) (T : Type) (tag : value -> T) (teqb : T -> T -> bool),
+  (forall a b, teqb a b = true <-> a = b) ->
+  forall (M : cache_impl T), contract T teqb M ->
+  forall (copying : bool) (g1 g2 : gcfg) (h : list hop),
+  tag_inj T tag (policies_all g1 g2 h) ->
+  (forall e, In e (envs_all g1 g2 h) -> key_safe e = true) ->
+  forall pre w req post hit d,
+  h = pre ++ HEval w req :: post ->
+  nth_error (snd (run_cached unit (relh_pure rel) T tag canon builtin_both M copying h (init unit T M g1 g2 tt)))
+            (evals_in pre) = Some (hit, GDecision d) ->
+  exists env k r,
+    build_env (guard_strict w g1 g2) req None = Some env /\ get_key "context" env = VObj k /\
+    guard_decide unit (relh_pure rel) (policy_at w pre g1 g2) env tt = (ERaw r, tt) /\
+    d_obligations d = r_obligations r /\ d_rule_id d = r_rule_id r /\
+    (r_decision r <> "permit" -> d_allowed d = false /\ d_effect d = "deny" /\ d_reason d = r_reason r) /\
+    (r_decision r = "permit" ->
+       forall ok ch, check "permit" (r_obligations r) (VObj k) = Ok (ok, ch) ->
+         if ok then d_allowed d = true /\ d_effect d = "permit" /\ d_reason d = r_reason r
+         else d_allowed d = false /\ d_effect d = "deny" /\ d_reason d = "obligation_failed" /\
+              d_challenge d = ch).
+Proof. exact gate_verdict_cached. Qed.
+Print Assumptions c07_gate_verdict_cached.
+
+(* an allowed answer — served from the cache or not — carries obligations the built-in checker does
+   not refuse on the context of THIS request *)
+Theorem c07_permit_not_refused_cached :
+  forall (rel : rel_query -> bool) (T : Type) (tag : value -> T) (teqb : T -> T -> bool),
+  (forall a b, teqb a b = true <-> a = b) ->
+  forall (M : cache_impl T), contract T teqb M ->
+  forall (copying : bool) (g1 g2 : gcfg) (h : list hop),
+  tag_inj T tag (policies_all g1 g2 h) ->
+  (forall e, In e (envs_all g1 g2 h) -> key_safe e = true) ->
+  forall pre w req post hit d,
+  h = pre ++ HEval w req :: post ->
+  nth_error (snd (run_cached unit (relh_pure rel) T tag canon builtin_both M copying h (init unit T M g1 g2 tt)))
+            (evals_in pre) = Some (hit, GDecision d) ->
+  d_allowed d = true ->
+  exists env k,
+    build_env (guard_strict w g1 g2) req None = Some env /\ get_key "context" env = VObj k /\
+    forall ok ch, check "permit" (d_obligations d) (VObj k) = Ok (ok, ch) -> ok = true.
+Proof. exact permit_not_refused_cached. Qed.
+Print Assumptions c07_permit_not_refused_cached.
+
+(* the gate in the terms of c07_verdict: a raw permit whose obligations can be judged is granted iff
+   every obligation passes on this request's context; otherwise the answer is deny / obligation_failed
+   with the challenge of the FIRST unmet obligation in list order *)
+Theorem c07_gate_cached :
+  forall (rel : rel_query -> bool) (T : Type) (tag : value -> T) (teqb : T -> T -> bool),
+  (forall a b, teqb a b = true <-> a = b) ->
+  forall (M : cache_impl T), contract T teqb M ->
+  forall (copying : bool) (g1 g2 : gcfg) (h : list hop),
+  tag_inj T tag (policies_all g1 g2 h) ->
+  (forall e, In e (envs_all g1 g2 h) -> key_safe e = true) ->
+  forall pre w req post hit d,
+  h = pre ++ HEval w req :: post ->
+  nth_error (snd (run_cached unit (relh_pure rel) T tag canon builtin_both M copying h (init unit T M g1 g2 tt)))
+            (evals_in pre) = Some (hit, GDecision d) ->
+  exists env k r,
+    build_env (guard_strict w g1 g2) req None = Some env /\ get_key "context" env = VObj k /\
+    guard_decide unit (relh_pure rel) (policy_at w pre g1 g2) env tt = (ERaw r, tt) /\
+    d_obligations d = r_obligations r /\
+    (r_decision r = "permit" ->
+     Forall well_formed_ob (r_obligations r) ->
+     (forall o, In o (r_obligations r) -> targets (norm_ob o) "permit" = true ->
+                exists x, check_one (norm_ob o) (VObj k) = Ok x) ->
+     (d_allowed d = true /\ d_effect d = "permit" /\ d_reason d = r_reason r /\
+      Forall (fun o => passes o (VObj k) "permit") (r_obligations r)) \/
+     (exists opre o opost ch,
+        r_obligations r = opre ++ o :: opost /\
+        Forall (fun o' => passes o' (VObj k) "permit") opre /\ unmet o (VObj k) "permit" ch /\
+        d_allowed d = false /\ d_effect d = "deny" /\ d_reason d = "obligation_failed" /\
+        d_challenge d = Some ch)).
+Proof. exact gate_cached. Qed.
+Print Assumptions c07_gate_cached.
+
+(* non-vacuity (theories/CacheExplain2.v, DefaultInMemoryCache(4)): guard holding pol_mfa (permit +
+   require_mfa); history yh = evaluate without context.mfa; the same again; with context.mfa; that one
+   again.  Answers: (hit?, allowed, reason, challenge) *)
+Example c07_cached_example_answers :
+  map summary_ch youts =
+  [(false, Some (false, "obligation_failed", Some "mfa")); (true, Some (false, "obligation_failed", Some "mfa"));
+   (false, Some (true, "matched", None)); (true, Some (true, "matched", None))].
+Proof. exact y_answers. Qed.
+Example c07_cached_example_hypotheses :
+  tag_inj value canon (policies_all yg yg yh) /\
+  (forall e, In e (envs_all yg yg yh) -> key_safe e = true).
+Proof. exact y_hypotheses_hold. Qed.
+(* c07_gate_cached applied to the HIT at position 1: the refusal served there is that of the first unmet
+   obligation (require_mfa, challenge "mfa") on that request's context; and it is a refusal *)
+Example c07_cached_example_hit_refusal :
+  (forall d, nth_error youts 1 = Some (true, GDecision d) ->
+     exists o, In o (d_obligations d) /\ unmet o (VObj []) "permit" "mfa" /\
+               d_allowed d = false /\ d_effect d = "deny" /\ d_reason d = "obligation_failed" /\
+               d_challenge d = Some "mfa") /\
+  (exists d, nth_error youts 1 = Some (true, GDecision d) /\ d_allowed d = false).
+Proof. exact (conj y_hit_refusal_explained y_hit_is_refusal). Qed.
+(* c07_permit_not_refused_cached applied to the HIT at position 3 *)
+Example c07_cached_example_hit_permit :
+  forall d, nth_error youts 3 = Some (true, GDecision d) -> d_allowed d = true ->
+  exists env k, build_env false (xr [("mfa", VBool true)]) None = Some env /\ get_key "context" env = VObj k /\
+    forall ok ch, check "permit" (d_obligations d) (VObj k) = Ok (ok, ch) -> ok = true.
+Proof. exact y_hit_permit_checked. Qed.
